@@ -47,12 +47,38 @@ impl Recorder for CanaryRec {
         SEEN.with(|s| s.set((self.id, self.whole())));
         Counter::noop()
     }
-    fn register_gauge(&self, _: &Key, _: &Metadata<'_>) -> Gauge {
+    fn register_gauge(&self, k: &Key, _: &Metadata<'_>) -> Gauge {
+        if k.name() == "c02_boom" {
+            // a strict recorder rejecting a metric: the caller catches the panic and carries on emitting
+            self.calls.fetch_add(1, Ordering::Relaxed);
+            SEEN.with(|s| s.set((self.id, self.whole())));
+            panic!("recorder rejects this metric");
+        }
         Gauge::noop()
     }
     fn register_histogram(&self, _: &Key, _: &Metadata<'_>) -> Histogram {
         Histogram::noop()
     }
+}
+
+/// A per-thread object whose destructor emits a metric when the thread exits (created before the thread's first
+/// emission, so it is destroyed after the library's own thread-locals).
+struct ExitFlush {
+    stamp: Arc<AtomicU64>,
+    out: Arc<std::sync::Mutex<Vec<Ev>>>,
+}
+impl Drop for ExitFlush {
+    fn drop(&mut self) {
+        SEEN.with(|s| s.set((u64::MAX, true)));
+        let call = self.stamp.fetch_add(1, Ordering::SeqCst);
+        let _ = metrics::counter!("c02_flushed_at_thread_exit");
+        let ret = self.stamp.fetch_add(1, Ordering::SeqCst);
+        let (id, whole) = SEEN.with(|s| s.get());
+        self.out.lock().unwrap().push(Ev::Load { seen: if id == u64::MAX { None } else { Some(id) }, whole, call, ret });
+    }
+}
+thread_local! {
+    static EXIT_FLUSH: std::cell::RefCell<Option<ExitFlush>> = const { std::cell::RefCell::new(None) };
 }
 
 #[derive(Clone, Debug)]
@@ -335,6 +361,7 @@ fn run_cells(a: &Args) -> Report {
 
 /// One process = one trial of the real global cell: racing set_global_recorder calls vs macro emissions.
 fn run_global(a: &Args) -> Report {
+    rt::quiet_panics();
     let mut rep = Report::new("C02", &a.leg, a.seed);
     let mut r = Rng::new(a.shard_seed());
     let ninst = 2 + r.usize(4);
@@ -371,9 +398,13 @@ fn run_global(a: &Args) -> Report {
             }
         }));
     }
+    let exit_evs: Arc<std::sync::Mutex<Vec<Ev>>> = Arc::new(std::sync::Mutex::new(Vec::new()));
     for _ in 0..nemit {
         let (stamp, go) = (stamp.clone(), go.clone());
+        let exit_evs = exit_evs.clone();
         hs.push(std::thread::spawn(move || {
+            // before this thread's first emission
+            EXIT_FLUSH.with(|f| *f.borrow_mut() = Some(ExitFlush { stamp: stamp.clone(), out: exit_evs }));
             while !go.load(Ordering::SeqCst) {
                 std::hint::spin_loop();
             }
@@ -381,7 +412,12 @@ fn run_global(a: &Args) -> Report {
             for k in 0..per {
                 SEEN.with(|s| s.set((u64::MAX, true)));
                 let call = stamp.fetch_add(1, Ordering::SeqCst);
-                if k % 2 == 0 {
+                if k % 97 == 96 {
+                    // the recorder (if one is installed) panics on this one; the panic is caught and the thread goes on
+                    let _ = std::panic::catch_unwind(|| {
+                        let _ = metrics::gauge!("c02_boom");
+                    });
+                } else if k % 2 == 0 {
                     let _ = metrics::counter!("c02_probe");
                 } else {
                     metrics::describe_counter!("c02_probe", "d");
@@ -398,6 +434,10 @@ fn run_global(a: &Args) -> Report {
     for h in hs {
         evs.extend(h.join().unwrap());
     }
+    // emissions made by thread-local destructors while the emitter threads were exiting
+    let at_exit: Vec<Ev> = std::mem::take(&mut *exit_evs.lock().unwrap());
+    rep.count("emissions_from_thread_exit_destructors", at_exit.len() as u64);
+    evs.extend(at_exit);
     let desc = jo! {"installers" => ninst, "emitters" => nemit, "emissions_each" => per, "real_global_cell" => true};
     let nones = evs.iter().filter(|e| matches!(e, Ev::Load { seen: None, .. })).count();
     let mut h = ninst as u64 * 31 + nemit as u64;
